@@ -133,6 +133,8 @@ pub fn cases_for(lm: &LinearModel, fam: &str, variants: &gen_lp::Variants, out: 
             SolverKind::Auto => gen_lp::mlp(&raw_milp).map(|r| format!("auto-wrap {} {}", lms, r)),
             SolverKind::MicroLp => gen_lp::mlp(&call(SolverKind::RawMicroLp)).map(|r| format!("microlp-wrap {} {}", lms, r)),
             SolverKind::Clarabel => gen_lp::clarabel_req(lm, &lms, variants, if hung.get() { Duration::from_millis(400) } else { TIMEOUT }),
+            // the whole entry point of the tableau simplex is a model function (`SlowSimplex.solveReal`)
+            SolverKind::Simplex => Some(format!("simplex-wrap {} {} {}", sx::num(crate::gen_std::measured_tolerance()), if opts.simplex_limit == 0 { 10000 } else { opts.simplex_limit }, lms)),
             _ => None,
         }.unwrap_or_default();
         if matches!(o, Outcome::Hang) { c.req.clear(); }
